@@ -136,7 +136,10 @@ def law_roundtrip(args, sq, qcs=None, seps=None, lead="", trail="",
         qc = qcs[i] if qcs else "\""
         if qc not in qchars:
             qc = "\""
-        if bare and bare[i] and a and all(ch in "abé" for ch in a):
+        # a word without quote characters or white space needs no quoting; a
+        # backslash that is not followed by a quote character is literal, also
+        # at the end of an unquoted word
+        if bare and bare[i] and a and all(ch in "abé\\" for ch in a):
             pieces.append(a)
             expect_q.append(False)
         else:
